@@ -250,6 +250,21 @@ func (s LWs) Close() (err error) {
 	return
 }
 
+// SetLevel implements LevelSettable: the severity of the record about
+// to be written is forwarded to every member that asks for it, including
+// plain io.Writer members wrapped by logwr.
+func (s LWs) SetLevel(lvl Level) {
+	for _, w := range s {
+		if x, ok := w.(LevelSettable); ok {
+			x.SetLevel(lvl)
+		} else if lw, ok := w.(*logwr); ok {
+			if x, ok := lw.Writer.(LevelSettable); ok {
+				x.SetLevel(lvl)
+			}
+		}
+	}
+}
+
 func (s LWs) Write(p []byte) (n int, err error) {
 	// TO/DO implement me
 	// /panic("implement me")
